@@ -851,6 +851,8 @@ func add(c context.Context,
 		tp, err := db.Get(c, t)
 		if err != nil {
 			return err
+		} else if tp == nil {
+			return ErrNotFound
 		}
 		if streams.IsOrExtendsActivityStreamsOrderedCollection(tp) {
 			oi, ok := tp.(orderedItemser)
@@ -932,6 +934,8 @@ func remove(c context.Context,
 		tp, err := db.Get(c, t)
 		if err != nil {
 			return err
+		} else if tp == nil {
+			return ErrNotFound
 		}
 		if streams.IsOrExtendsActivityStreamsOrderedCollection(tp) {
 			oi, ok := tp.(orderedItemser)
